@@ -97,7 +97,7 @@ PALIASES: dict[str, tuple[list[str], Any]] = {
 GENERICS = {"Box": ["v"], "Pair2": ["first", "second"], "Num": ["n"]}
 HASHABLE_LEAVES = [("prim", p) for p in ("bool", "int", "float", "str", "bytes", "UUID", "date", "Path")] + [("enum", "Color"), ("enum", "Level"), ("literal", "L1"), ("literal", "L2"), ("none",)]
 LEAVES = [("prim", p) for p in PRIMS] + [("none",), ("enum", "Color"), ("enum", "Level"), *[("literal", k) for k in LITERALS], ("any",), ("missing",), ("callable",), ("protocol",),
-          ("state", "Inner"), ("state", "Leaf"), ("alias", "IntOrStr"), ("alias", "Names"), ("alias", "OptInner")]
+          ("state", "Inner"), ("state", "Leaf"), ("state", "Box"), ("alias", "IntOrStr"), ("alias", "Names"), ("alias", "OptInner")]
 
 
 def subst(term: Any, env: dict[str, Any]) -> Any:
@@ -324,6 +324,8 @@ def conforming(N: Namespace, term: Any, rng: random.Random, depth: int = 0) -> A
     if k == "state":
         if t[1] == "Inner":
             return rng.choice([ns["Inner"](x=rng.randint(0, 9)), ns["InnerSub"](x=1, y="z")]) if rng.random() < 0.5 else ns["Inner"](x=rng.randint(0, 9))
+        if t[1] == "Box":  # the generic class itself, not specialised: any Box is one, specialised or not
+            return rng.choice([ns["Box"](v=rng.randint(0, 9)), ns["Box"][int](v=2), ns["Box"][str](v="s"), ns["Box"](v=None)])
         return ns["Leaf"](name=rng.choice(["a", "b"]), n=rng.randint(0, 3))
     if k == "generic":
         cls = N.generic_class(t[1], t[2])
